@@ -733,7 +733,7 @@ func skipInitPkg(path string) bool {
 		return false
 	}
 	switch path {
-	case "errors", "io", "io/fs", "internal/oserror", "net/url", "context", "os", "bytes", "strings", "unicode/utf8", "encoding/binary",
+	case "errors", "io", "io/fs", "internal/oserror", "net/url", "time", "context", "os", "bytes", "strings", "unicode/utf8", "encoding/binary",
 		"github.com/cockroachdb/pebble/v2/batchrepr", "github.com/cockroachdb/pebble/v2/internal/base",
 		"github.com/cockroachdb/pebble/internal/base", "bufio", "encoding/hex", "strconv", "sort", "slices",
 		"github.com/sourcegraph/conc", "github.com/sourcegraph/conc/stream", "github.com/sourcegraph/conc/pool", "github.com/sourcegraph/conc/panics":
